@@ -26,7 +26,8 @@ EXPLANATION = (
     '(GRD.3) a blank ident and the user info complete each other in either order; (GRD.4) the reply lookup '
     'passes over a slot only because it is not awaited, empty or named differently.  The numeric invariant '
     'over histories is not decided.'
-    ' Rounds 8-9: (TAB.3/WMC.3/FMT.1/TAB.4) shared: tag capacity, fresh zeroed request, one flush per message, per-message arity; (MPT.3) the reader\'s event is persistent and level-triggered.')
+    ' Rounds 8-9: (TAB.3/WMC.3/FMT.1/TAB.4) shared: tag capacity, fresh zeroed request, one flush per message, per-message arity; (MPT.3) the reader\'s event is persistent and level-triggered.'
+    ' Hunt round 1: (MPT.4) every documented form of a final answer (OK / AGAIN / MORE: with a text, with only the blank, bare) ends the wait on every path of the reply handler; (TAB.4) the service word of a reply is matched against the configured name without regard to case; (GRD.3) an empty ident names nobody; (WMC.4) one reference per awaited bit, given back once.')
 ASSUMPTIONS = ['event entries are discovered from the dispatch switch, extern-callback registrations and the reply slots',
                'a call of the gate re-evaluates the request it is given; requests are not aliased across clients']
 
